@@ -503,3 +503,36 @@ def rule_pwsrc(ctx, R):
                                   "the password stored at line %s has passed through %s (%s): the server's password is no longer the configured text, so a different string authenticates and the exact one may not" % (st.get("line"), c.split("::")[-1], fb.loc(bb_)), "%s:%s" % (b.file, st.get("line")))
                     k += 1
     R.floor("password_stores", n)
+
+
+def rule_config_failclosed(ctx, R):
+    """`requirepass configured` must not silently become `no password`: when the configuration
+    file cannot be loaded the process does not go on to serve with some other configuration (the
+    defaults have no password, so the authentication gate would never be entered).  On the error
+    edge of every configuration load no server start is reachable."""
+    starts = {f for f in ctx.prog.bodies if re.search(r"^network::server::Server::(new|from_config|run|with_config)$", f)}
+    n = 0
+    for fn, b in sorted(ctx.prog.bodies.items()):
+        if "::tests::" in fn or fn.startswith(("config::", "network::", "storage::")):
+            continue
+        for i, t in b.calls():
+            c = callee(t)
+            if not re.search(r"^config::(Config::from_file|parser::parse_config_file|Config::load)$", c):
+                continue
+            n += 1
+            rs = shared.result_switch(b, i)
+            if rs is None:
+                R.inst(fn, "config-load", {"at": b.loc(i), "result_inspected": False})
+                R.finding(fn, "config-load:result-not-inspected", "the result of %s is not inspected" % c.split("::")[-1], b.loc(i)); continue
+            fail = set()
+            for f0 in rs["fail"]:
+                fail |= cfg.fwd(b, [f0])
+            ok_side = set()
+            for o0 in rs["ok"]:
+                ok_side |= cfg.fwd(b, [o0])
+            serve = [x for x in fail if b.term(x)["k"] == "call" and (ctx.cg.reach([callee(b.term(x))]) & starts or callee(b.term(x)) in starts)]
+            R.inst(fn, "config-load", {"at": b.loc(i), "server_start_reachable_on_the_error_edge": bool(serve)})
+            if serve:
+                R.finding(fn, "config-load:error-edge-starts-server",
+                          "when %s fails (line %d) %s goes on to start the server (line %d) with another configuration: a `requirepass` in the file that could not be loaded is lost and every connection is served without authentication" % (c.split("::")[-1], b.bb_line(i), fn.split("::")[-1], b.bb_line(serve[0])), b.loc(serve[0]))
+    R.floor("configuration_loads", n)
